@@ -545,6 +545,49 @@ struct Harness
         takeEvents();
         return "ok";
       }
+      if (op == "bigkeys")
+      { // bigkeys <n>: n keys through setBatch (chunks of 50 000), compact() (the snapshot then carries count = n), clean close, reopen,
+        // every key counted and a sample read back.  Implementation-only (the traces are muted: too many records for the line protocol).
+        unsigned long long n;
+        if (t.size() != 2 || !vh::parseNat(t[1], n)) return "bad-op";
+        g_muteEvents = true;
+        std::unordered_map<std::string, std::vector<std::uint8_t>> batch;
+        char buf[24];
+        for (unsigned long long i = 0; i < n; ++i)
+        {
+          std::snprintf(buf, sizeof buf, "b%08llx", i);
+          batch.emplace(buf, std::vector<std::uint8_t>{static_cast<std::uint8_t>(i & 0xff)});
+          if (batch.size() == 50000)
+          {
+            store->setBatch(batch);
+            batch.clear();
+          }
+        }
+        if (!batch.empty()) store->setBatch(batch);
+        const size_t before = store->size();
+        store->compact();
+        store.reset();
+        std::string r;
+        try
+        {
+          openStore();
+          size_t okv = 0;
+          for (unsigned long long i : {0ULL, n / 2, n - 1})
+          {
+            std::snprintf(buf, sizeof buf, "b%08llx", i);
+            auto v = store->get(buf);
+            okv += (v && v->size() == 1 && (*v)[0] == static_cast<std::uint8_t>(i & 0xff)) ? 1 : 0;
+          }
+          r = "before=" + std::to_string(before) + " reopen=ok size=" + std::to_string(store->size()) + " sample=" + std::to_string(okv) + "/3";
+        }
+        catch (const std::exception &e)
+        {
+          r = "before=" + std::to_string(before) + " reopen=throw " + errKind(e.what());
+        }
+        g_muteEvents = false;
+        takeEvents();
+        return r;
+      }
       if (op == "setttl")
       {
         long long ttl;
